@@ -14,6 +14,7 @@ import Driver.OnceDrv
 import Driver.EraseDrv
 import Driver.MtxDrv
 import Driver.CfgDrv
+import Driver.MpiDrv
 /-! `driver <model>`: reads harness output (cases) on stdin, prints one verdict line per case. -/
 open Driver
 
@@ -35,6 +36,7 @@ def dispatch (model : String) (c : Case) : String :=
   | "erase" => EraseDrv.runCase c
   | "mtx" => MtxDrv.runCase c
   | "cfg" => CfgDrv.runCase c
+  | "mpi" => MpiDrv.runCase c
   | _ => s!"case {c.id} reject 0 unknown-model-{model}"
 
 def main (args : List String) : IO UInt32 := do
